@@ -52,11 +52,11 @@ def check_representation(mods):
                                     "stated over the documented representation cannot decide this tree" % (", ".join(missing), ", ".join(sorted(have))))
             # additional members: harmless when nothing depends on them (a statistic); otherwise the protocol keeps state the
             # rules know nothing about (a batch of harvested flags, a cached cursor) and they cannot tell right from wrong
-            from .purity import write_only_member
+            from .purity import member_influences_protocol
             extra = sorted(have - set(EXPECTED_FIELDS))
             for f in extra:
-                if not all(write_only_member(mm, STRUCTS, f) for mm in mods):
-                    raise AnalysisError("anchor vanished: messageq_t carries additional state (%s) that its operations read: the queue's "
+                if any(member_influences_protocol(mm, STRUCTS, f, EXPECTED_FIELDS) for mm in mods):
+                    raise AnalysisError("anchor vanished: messageq_t carries additional state (%s) that its operations' results or writes depend on: the queue's "
                                         "representation changed and the rules stated over the documented members cannot decide this tree" % f)
             return
     raise AnalysisError("anchor vanished: messageq_t has no debug info in the analysed units")
